@@ -706,7 +706,9 @@ def check_C04(ctx):
             c["concurrent"] = n
             c["gomaxprocs"] = procs
             cs.append(c)
-        con_obs_all.append(ctx.run_cases(cs, deadline=300, workers=2, binary=race_bin))
+        con_obs_all.append(ctx.run_cases(cs, deadline=90, workers=2, binary=race_bin, max_timeouts=2))
+        if sum(1 for o in con_obs_all[-1] if o.get("outcome") == "timeout") >= 2:
+            break           # (the tree hangs under concurrency: reported below, no need to wait for the other settings)
     os.environ.pop("GORACE", None)
     # a session whose set-up (parsing its templates, registering its cached sources) works alone but fails while
     # other goroutines of the process are parsing and rendering is itself a concurrent result that differs
